@@ -402,6 +402,36 @@ func init() {
 			min := Eq(b.Mag, BinBV("bvshl", BVu(1, bigW), BVu(63, bigW)))
 			return Sc{Or(hi0, And(b.Neg, min))}
 		}),
+		// ---- holiman/uint256 (the three entry points a big.Int fast path uses): Int is [4]uint64,
+		// least significant limb first ----
+		"(*github.com/holiman/uint256.Int).SetFromBig": simple(func(e *Engine, s *State, a []Value, at ssa.Instruction, _ *ssa.Function) Value {
+			e.bigNil(s, a[1], at, "SetFromBig")
+			b := bigOf(s, a[1])
+			low := Extract(255, 0, b.Mag)
+			low = Ite(b.Neg, Sub(BVu(0, 256), low), low) // the library negates modulo 2^256
+			s.store(a[0].(Ptr), u256Limbs(low))
+			return Sc{Not(Eq(Extract(bigW-1, 256, b.Mag), BVu(0, bigW-256)))}
+		}),
+		"(*github.com/holiman/uint256.Int).SetBytes": simple(func(e *Engine, s *State, a []Value, at ssa.Instruction, _ *ssa.Function) Value {
+			arr, off, ln, _, _ := e.bsl(s, a[1])
+			// the last 32 bytes of the buffer, big endian
+			var v *Term
+			for k := 31; k >= 0; k-- {
+				kk := Idx(k)
+				by := Ite(Ult(kk, ln), Select(arr, Sub(Sub(Add(off, ln), Idx(1)), kk)), BVu(0, 8))
+				if v == nil {
+					v = by
+				} else {
+					v = Concat(v, by)
+				}
+			}
+			s.store(a[0].(Ptr), u256Limbs(v))
+			return a[0]
+		}),
+		"(*github.com/holiman/uint256.Int).Cmp": simple(func(e *Engine, s *State, a []Value, at ssa.Instruction, _ *ssa.Function) Value {
+			x, y := u256Of(s, a[0]), u256Of(s, a[1])
+			return Sc{Ite(Ult(x, y), BVi(-1, 64), Ite(Eq(x, y), BVu(0, 64), BVu(1, 64)))}
+		}),
 		"(*math/big.Int).Cmp": simple(func(e *Engine, s *State, a []Value, at ssa.Instruction, _ *ssa.Function) Value {
 			e.bigNil(s, a[0], at, "Cmp")
 			e.bigNil(s, a[1], at, "Cmp")
@@ -488,4 +518,14 @@ func (e *Engine) noteBound(msg string) {
 		}
 	}
 	e.Axioms = append(e.Axioms, msg)
+}
+
+
+func u256Limbs(v *Term) Value {
+	return Ar{E: []Value{Sc{Extract(63, 0, v)}, Sc{Extract(127, 64, v)}, Sc{Extract(191, 128, v)}, Sc{Extract(255, 192, v)}}}
+}
+
+func u256Of(s *State, p Value) *Term {
+	ar := s.load(p.(Ptr)).(Ar)
+	return Concat(Concat(Concat(ar.E[3].(Sc).T, ar.E[2].(Sc).T), ar.E[1].(Sc).T), ar.E[0].(Sc).T)
 }
